@@ -104,6 +104,8 @@ def pick_mem(rng, lo, thr, hi):
 class SimFS:
     """An in-memory tree path -> bytes with fault plan and call counters."""
 
+    _uniq = 0
+
     def __init__(self, listdir_seed=0, faults=None) -> None:
         self.dirs = {"/", "/sim"}
         self.files: dict[str, bytes] = {}
@@ -180,7 +182,10 @@ class SimFS:
             if p.startswith(prefix) and p != path:
                 names.add(p[len(prefix):].split("/", 1)[0])
         names = sorted(names)
-        random.Random(f"{self.listdir_seed}:{path}").shuffle(names)
+        # the permutation depends on the seed and on the path below the temporary
+        # root only (temporary names differ from run to run, like real ones)
+        rel = "/".join(path.split("/")[3:]) if path.startswith("/sim/") else path
+        random.Random(f"{self.listdir_seed}:{rel}").shuffle(names)
         return names
 
     def rmtree(self, path, *a, **k):
@@ -194,8 +199,10 @@ class SimFS:
 
     def mkdtemp(self, suffix=None, prefix=None, dir=None):  # noqa: A002
         self.n["mkdtemp"] += 1
-        self.tmp_n += 1
-        path = f"/sim/{prefix or 'tmp'}{self.tmp_n}"
+        # like the real mkdtemp, never hand out the same name twice in a process:
+        # a stale store of an earlier run must not be able to name a live directory
+        SimFS._uniq += 1
+        path = f"/sim/{prefix or 'tmp'}{SimFS._uniq}"
         self.dirs.add(path)
         return path
 
